@@ -5,7 +5,65 @@ from props import coregen as G, corecheck as K, variants as V
 PID = 'C07'
 PROFILE = dict(named_cols=0.4, partial_args=0.3, inclusion=0.3, assign=0.6, lists=0.25, records=0.25, combine=0.3,
                disjunction=0.35, filter=0.4, negation=0.25, two_rules=0.4, distinct=0.3, aggregation=0.3,
-               ifthenelse=0.4, builtins=0.3, func_calls=0.4, set_agg=0.15)
+               ifthenelse=0.4, builtins=0.3, func_calls=0.4, share_names=0.5, set_agg=0.15)
+
+
+AGG_TEMPLATE = """@Engine("sqlite");
+%s
+Top2(x) = ArgMaxK(x, 2);
+Low2(x) = ArgMinK(x, 2);
+Top3(x) = ArgMaxK(x, 3);
+Low3(x) = ArgMinK(x, 3);
+A1(g) Top2= (n -> s) :- Score(g, n, s);
+A2(g) Low2= (n -> s) :- Score(g, n, s);
+A3(g) Top3= (n -> s) :- Score(g, n, s);
+A4(g) Low3= (n -> s) :- Score(g, n, s);
+A5(g) ArgMax= (n -> s) :- Score(g, n, s);
+A6(g) ArgMin= (n -> s) :- Score(g, n, s);
+A7(g, t? += s, lo? Min= s, hi? Max= s, c? Count= n, st? Set= s) distinct :- Score(g, n, s);
+A8(g) Array= (s -> n) :- Score(g, n, s);
+"""
+AGG_PREDS = ['A1', 'A2', 'A3', 'A4', 'A5', 'A6', 'A7', 'A8']
+
+
+def arrival_order(rep, tier):
+  """Aggregated values must not depend on the order in which the rows arrive (ties excluded: all
+  aggregated values within a group are distinct; List is not used).  Every aggregate is evaluated under
+  permutations of the fact statements; the first order is the reference."""
+  import itertools
+  import json as _json
+  from vlib import logica_run
+  r = common.rng('c07-arrival')
+  n_tables = 2 if tier == 'quick' else 40
+  runs = bad = 0
+  for t in range(n_tables):
+    n = r.choice([4, 5])
+    scores = r.sample(range(1, 60), n)
+    facts = ['Score("g%d", "n%d", %d);' % (i % 2, i, sc) for i, sc in enumerate(scores)]
+    perms = list(itertools.permutations(facts))
+    if len(perms) > (24 if tier == 'quick' else 120):
+      perms = [perms[0]] + r.sample(perms[1:], 23 if tier == 'quick' else 119)
+    ref = None
+    for pm in perms:
+      text = AGG_TEMPLATE % '\n'.join(pm)
+      rules = logica_run.parse_rules(text)
+      out = {}
+      for p in AGG_PREDS:
+        st, a, b = logica_run.run_pred(text, p, rules=rules, decode=True)
+        out[p] = (st, sorted(common.canon(list(x)) for x in b) if st == 'ok' else a)
+        runs += 1
+      if ref is None:
+        ref = (pm, out)
+        continue
+      for p in AGG_PREDS:
+        if out[p] != ref[1][p] and bad < 3:
+          bad += 1
+          rep.violation('arrival-order:%s' % p, {
+              'predicate': p, 'law': 'aggregated values do not depend on the order in which the rows arrive (no ties here)',
+              'program_text': text, 'observed': out[p], 'reference_order_program': AGG_TEMPLATE % '\n'.join(ref[0]),
+              'reference_result': ref[1][p], 'how': 'vlib.logica_run.run_pred(program_text, predicate)'})
+  rep.coverage['arrival_order_runs'] = runs
+  rep.coverage['evaluations'] = rep.coverage.get('evaluations', 0) + runs
 
 
 def run(tier, replay=None):
@@ -22,8 +80,11 @@ def run(tier, replay=None):
       ('permute_conjuncts', lambda prog, r: V.permute(prog, r, rules=False, conj=True, disj=False)),
       ('permute_disjuncts', lambda prog, r: V.permute(prog, r, rules=False, conj=False, disj=True)),
       ('permute_all', lambda prog, r: V.permute(prog, r)),
+      ('caller_uses_callee_local_names', V.capture_bait),
       ('rename_variables', lambda prog, r: V.rename(prog, r, variables=True, predicates=False)),
       ('rename_predicates', lambda prog, r: V.rename(prog, r, variables=False, predicates=True)),
   ]
   K.run_core(rep, PID, tier, PROFILE, variants, 60, 1500, 'c07', replay=replay, ok=ok, info=info, metamorphic=True)
+  if not replay:
+    arrival_order(rep, tier)
   return rep.finish()
